@@ -731,6 +731,77 @@ def coqchk(ctx):
         ctx.cov["trusted_base"].append("coqchk -o LibaV.Properties_C06: accepted, axioms <none>")
 
 
+# ---------------------------------------------------------------------------------- comparison with very long operands
+def big_compare(ctx):
+    """a_str_cmpn / a_str_cmp_ against 2^31 .. 2^33 zero bytes (sparse mapping) vs the model's closed form cmpn_zeros
+    (coq/C06/StrBig.v, proved equal to cmpn for every length) evaluated by vm_compute; the oracle is the property itself:
+    bytewise lexicographic order with the length as tie-break."""
+    bbin = ctx.cc("bigcmp", [H / "bigcmp.c"], repo_srcs=["str.c", "a.c", "utf.c"], mode="asan")
+    ok, outs, failed = ctx.coq_build(["C06/StrBig.v"])
+    if not ok:
+        ctx.tie_broken("coq/C06/StrBig.v does not compile: %s" % failed)
+        return
+    r = random.Random(ctx.subseed("c06-big"))
+    lens = [0, 1, 2, 3, 7, 8, 2 ** 31 - 1, 2 ** 31, 2 ** 31 + 1, 3 * 2 ** 30, 2 ** 32 - 1, 2 ** 32, 2 ** 32 + 1, 2 ** 32 + 2 ** 31,
+            2 ** 33 - 1, 2 ** 33]
+    contents = ["-", "00", "0000", "000000", "00000000000000", "01", "0001", "000080", "00ff", "7f"]
+    cases = [(c, n) for c in contents for n in lens]
+    for _ in range(20 if ctx.quick else 400):
+        k = r.randrange(0, 12)
+        c = "".join(r.choice(["00", "00", "00", "01", "80", "ff"]) for _ in range(k)) or "-"
+        cases.append((c, r.choice([r.randrange(0, 16), r.randrange(2 ** 31 - 4, 2 ** 31 + 4), r.randrange(2 ** 32 - 4, 2 ** 32 + 4),
+                                   r.randrange(0, 2 ** 33)])))
+    rc, out, err = vlib.sh2([str(bbin)], stdin="".join("%s %x\n" % cn for cn in cases), timeout=300,
+                            env={"ASAN_OPTIONS": "detect_leaks=1"})
+    c_lines = out.splitlines()
+    if rc != 0 or len(c_lines) != len(cases) or any(l.startswith("HARNESS") for l in c_lines):
+        ctx.tie_broken("big-operand comparison driver failed: rc=%d %s %s" % (rc, out[-200:], err[-300:]))
+        return
+
+    def coq_str(c):
+        if c == "-":
+            return "(mkStr None 0 0)"
+        bs = [int(c[i:i + 2], 16) for i in range(0, len(c), 2)]
+        return "(mkStr (Some [%s]) %d %d)" % ("; ".join(str(b) for b in bs), len(bs), len(bs))
+
+    def sgn(z):
+        return {"Some 0%Z": 0, "Some 1%Z": 1, "Some (-1)%Z": -1}.get(z)
+
+    text = ("From Coq Require Import NArith ZArith List.\nFrom LibaV Require Import C06.StrDefs C06.StrBig.\nImport ListNotations.\n"
+            "Local Open Scope N_scope.\n" +
+            "".join("Eval vm_compute in (cmpn_zeros %s %d).\n" % (coq_str(c), n) for c, n in cases))
+    rc, out = ctx.coq_eval("bigcmp_cases", text, timeout=600)
+    m_vals = [" ".join(x.split()) for x in re.findall(r"=\s*(Some[^:]*?)\s*:\s*option Z", out)]
+    if rc != 0 or len(m_vals) != len(cases):
+        ctx.tie_broken("big-operand comparison: model evaluation failed (%d of %d values): %s" % (len(m_vals), len(cases), out[-300:]))
+        return
+    nbad = 0
+    for (c, n), cl, mv in zip(cases, c_lines, m_vals):
+        m = re.match(r"cmpn=(-?\d) cmp_=(-?\d) rcmp_=(-?\d)$", cl)
+        got = tuple(int(x) for x in m.groups()) if m else None
+        ms = sgn(mv)
+        want = (ms, ms, -ms if ms is not None else None)
+        # the property itself: lexicographic order of content vs n zero bytes, length as tie-break
+        b = bytes.fromhex(c) if c != "-" else b""
+        k = min(len(b), n)
+        spec = (b[:k] > bytes(k)) - (b[:k] < bytes(k)) or ((len(b) > n) - (len(b) < n))
+        if got != want:
+            nbad += 1
+            if nbad == 1:
+                ctx.tie_broken("big-operand comparison: content %s vs %d zero bytes: C %s, model %s" % (c, n, got, want))
+        if got is not None and got != (spec, spec, -spec):
+            ctx.report("a_str_cmp_/long-operand",
+                       "a_str_cmpn(<%s>, <%d zero bytes>, %d) has sign %s (a_str_cmp_ %s, reversed %s); bytewise lexicographic order with "
+                       "the length as tie-break gives %d" % (c, n, n, got[0], got[1], got[2], spec),
+                       {"content_hex": c, "operand": "%d zero bytes (sparse mapping)" % n, "observed": list(got), "expected": spec,
+                        "how": "echo '%s %x' | build/C06/bigcmp" % (c, n)})
+            break
+    ctx.cov["big_operand_comparisons"] = {"cases": len(cases), "lengths_from_2^31": sum(1 for _, n in cases if n >= 2 ** 31),
+                                          "disagreements": nbad}
+    ctx.count(evaluations=3 * len(cases))
+
+
+
 def run(ctx):
     if not ctx.quick:
         # rebuild this property's files from clean
@@ -740,6 +811,7 @@ def run(ctx):
     if ctx.prove() and not ctx.quick:
         coqchk(ctx)
     cbin, mbin = build(ctx)
+    big_compare(ctx)
     cases, n_corpus, n_sys = gen_all(ctx)
     ctx.log("cases: %d (corpus %d, systematic %d), ops: %d" % (len(cases), n_corpus, n_sys,
                                                                 sum(len(c.ops) for c in cases)))
